@@ -156,7 +156,7 @@ def gen_case(rng, tier="quick", dup_ok=True, cross_p=0.02):
         if malformed and rng.random() < 0.1:
             t = rng.choice([1, 2, 3, 4])          # possibly not open: the op must be skipped
             if t not in sim.txs:
-                ops.append({"op": rng.choice(["commit", "abort", "query", "create"]), "t": t,
+                ops.append({"op": rng.choice(["commit", "abort", "commit_fail", "query", "create"]), "t": t,
                             "rows": [gen_row(rng)], "f": {"k": "idx", "i": 0, "vs": [1]}})
                 continue
         view = sim.view(t)
@@ -241,7 +241,17 @@ def gen_case(rng, tier="quick", dup_ok=True, cross_p=0.02):
                 overlap = set(sim.txs[t]) & set(sim.txs[u])
                 if overlap and rng.random() >= cross_p:
                     u = None
-            if u is not None:
+            if u is None and rng.random() < 0.25:
+                # the kv commit fails: nothing of t may reach table or indexes
+                sim.txs.pop(t)
+                ops.append({"op": "commit_fail", "t": t})
+                if rng.random() < 0.5:
+                    i = rng.randrange(2)
+                    ops.append({"op": "get", "t": 0, "i": i,
+                                "vs": list(dict.fromkeys(rng.choice(AV if i == 0 else BV) for _ in range(2)))})
+                if rng.random() < 0.5:
+                    ops.append({"op": "query", "t": 0, "f": gen_filter(rng, sim.view(0), stats, dup_ok, need_idx=True)})
+            elif u is not None:
                 # u commits inside t's commit (between t's kv commit and t's index flush)
                 sim.commit(t)
                 sim.commit(u)
@@ -280,9 +290,13 @@ def gen_case(rng, tier="quick", dup_ok=True, cross_p=0.02):
             ops.append({"op": "get", "t": t, "i": i, "vs": vs})
     # finish: end every transaction, then probe committed state with queries
     for t in sorted(sim.txs):
-        if rng.random() < 0.6:
+        y = rng.random()
+        if y < 0.55:
             sim.commit(t)
             ops.append({"op": "commit", "t": t})
+        elif y < 0.75:
+            sim.txs.pop(t)
+            ops.append({"op": "commit_fail", "t": t})
         else:
             sim.txs.pop(t)
             ops.append({"op": "abort", "t": t})
@@ -359,6 +373,8 @@ def c_op(o):
         return "Commit2 %s %s" % (t, cnatl(o["u"]))
     if k == "abort":
         return "Abort %s" % t
+    if k == "commit_fail":
+        return "CommitFail %s" % t
     if k == "reopen":
         return "Reopen"
     if k == "repl":
@@ -460,7 +476,7 @@ def _writes(case):
             w[t] |= {o["kk"]} if not o.get("f") else set(KEYS)
         elif k == "delete" and t in w:
             w[t] |= set(o["ks"]) if not o.get("f") else set(KEYS)
-        elif k in ("commit", "abort"):
+        elif k in ("commit", "abort", "commit_fail"):
             w.pop(t, None)
         elif k == "reopen":
             w.clear()
@@ -503,7 +519,7 @@ def nontrivial(case, r):
             wrote.add(t)
         if o["op"] == "query" and t in wrote and has_idx(o["f"]):
             q_in_tx = True
-        if o["op"] in ("commit", "abort", "commit2"):
+        if o["op"] in ("commit", "abort", "commit2", "commit_fail"):
             ends += 1
     if len(wrote) < 1 or ends < 1 or not q_in_tx:
         return False
@@ -582,7 +598,7 @@ def consts(repo):
 
 
 RULE = ("histories of 6-26 ops over begin/create/update(key|filter)/delete(keys|filter)/query/ordered query/commit/"
-        "nested commit/abort/reopen/replicated write/Get on a 4-column entry (key, lookup-indexed a in 0..3, "
+        "nested commit/commit with injected kv failure/abort/reopen/replicated write/Get on a 4-column entry (key, lookup-indexed a in 0..3, "
         "sorted-indexed b in 0..5, payload c) over 9 keys, up to 3 interleaved transactions plus direct DB use, both "
         "observer wirings; filter trees of depth <= 3 over keys/pred/idx/and/or/not re-drawn until non-constant on "
         "the reader's current view (share reported). Non-trivial = a writing transaction, an index-leaf query "
